@@ -237,9 +237,15 @@ def check(ctx):
                             if isinstance(e, ast.Name):
                                 defs.setdefault(e.id, []).append(n.value)
                 elif isinstance(n, (ast.For, ast.comprehension)):
-                    for e in ast.walk(n.target):
-                        if isinstance(e, ast.Name):
-                            defs.setdefault(e.id, []).append(n.iter)
+                    it = n.iter
+                    if isinstance(n.target, (ast.Tuple, ast.List)) and isinstance(it, ast.Call) and call_name(it) == "zip" and len(it.args) == len(n.target.elts):
+                        pairs = list(zip(n.target.elts, it.args))      # for a, b in zip(x, y): a <- x, b <- y
+                    else:
+                        pairs = [(n.target, it)]
+                    for tgt, val in pairs:
+                        for e in ast.walk(tgt):
+                            if isinstance(e, ast.Name):
+                                defs.setdefault(e.id, []).append(val)
                 elif isinstance(n, ast.withitem) and n.optional_vars is not None:
                     for e in ast.walk(n.optional_vars):
                         if isinstance(e, ast.Name):
@@ -259,26 +265,34 @@ def check(ctx):
                             return "self.filesystemRoot"
                 return None
 
+            def is_path(d):
+                return isinstance(d, ast.Call) and call_name(d) == "self._path" and len(d.args) == 1 and isinstance(d.args[0], ast.Name) and d.args[0].id in pr
+
+            def nm(d):
+                return {x.id for x in ast.walk(d) if isinstance(x, ast.Name)}
+
+            # greatest fixpoint: drop a name as soon as one of its definitions is foreign, mentions a raw parameter, or mentions no confined name
+            cand = set(defs) | ok_names
             changed = True
             while changed:
                 changed = False
-                for name, ds_ in defs.items():
-                    if name in ok_names:
-                        continue
-                    good = True
-                    for d in ds_:
-                        if foreign(d):
-                            good = False
+                for name in sorted(cand - ok_names):
+                    for d in defs.get(name, []):
+                        raw = (set(pr[1:]) & nm(d)) - set(defs)
+                        if foreign(d) or not (is_path(d) or (nm(d) & cand and not raw)):
+                            cand.discard(name)
+                            changed = True
                             break
-                        is_path = isinstance(d, ast.Call) and call_name(d) == "self._path" and len(d.args) == 1 and isinstance(d.args[0], ast.Name) and d.args[0].id in pr
-                        derived = bool({x.id for x in ast.walk(d) if isinstance(x, ast.Name)} & ok_names) and not (set(pr[1:]) & {x.id for x in ast.walk(d) if isinstance(x, ast.Name)} - ok_names - set(defs)) \
-                            if not is_path else True
-                        if not (is_path or derived):
-                            good = False
-                            break
-                    if good:
-                        ok_names.add(name)
+            # ... restricted to names that are reachable from a self._path(<parameter>) definition (no self-supporting cycles)
+            reach = set(ok_names) | {n_ for n_ in cand if any(is_path(d) for d in defs.get(n_, []))}
+            changed = True
+            while changed:
+                changed = False
+                for n_ in cand - reach:
+                    if any(nm(d) & reach for d in defs.get(n_, [])):
+                        reach.add(n_)
                         changed = True
+            ok_names = cand & reach
             # names that are both parameter and rebound (path = self._path(path)) are ok only after rebinding: treat as ok if they have a def
             for c in ast.walk(m):
                 if not isinstance(c, ast.Call):
